@@ -44,7 +44,8 @@ theorem source_facts :
     Gen.codes = specCodes ∧ Gen.routeOrder = specRouteOrder ∧
     Gen.routeVersionCode = specCodes.versionMismatch ∧ Gen.routeUtf8Code = specCodes.invalidQuery ∧
     Gen.routeRawBinaryCode = specCodes.invalidQuery ∧ Gen.routeLookupCode = specCodes.methodNotFound ∧
-    Gen.notifyValue = 1 ∧ Gen.unknownQueryFormatIsRawBinary = true := by decide
+    Gen.notifyValue = 1 ∧ Gen.unknownQueryFormatIsRawBinary = true ∧ Gen.versionTestIsNe = true ∧
+    Gen.routeRejectSites = 4 ∧ Gen.routeDispatchSites = 1 := by decide
 
 /-- unacceptable body format ⇒ InvalidBody; undecodable body (JSON/BEVE/IO) ⇒ ParseError; … -/
 theorem error_code_table : Gen.toErrorCode = specToErrorCode := by decide
